@@ -58,7 +58,7 @@ def _bkg_args(case):
     kw = dict(box_size=tuple(case['box']), filter_size=case['filter_size'],
               exclude_percentile=case['exclude_percentile'])
     ft = case['filter_threshold']
-    if ft is not None:
+    if ft is not None and ft != 'min_mesh':
         kw['filter_threshold'] = {'below': 1.0, 'inside': 11.0 + case['gradient'] / 2,
                                   'above': 500.0}[ft]
     kw['interpolator'] = (BkgIDWInterpolator() if case['interp'] == 'idw'
@@ -70,6 +70,17 @@ def _bkg_args(case):
         cm[:, :max(1, nx // 5)] = True
         kw['coverage_mask'] = cm
         kw['fill_value'] = -1.0
+    if ft == 'min_mesh':
+        # boundary value: exactly the smallest unfiltered mesh value
+        from photutils.background import Background2D
+        kw0 = dict(kw, filter_size=1)
+        try:
+            with warnings.catch_warnings():
+                warnings.simplefilter('ignore')
+                kw['filter_threshold'] = float(np.nanmin(
+                    Background2D(d.copy(), **kw0).background_mesh))
+        except ValueError:
+            pass
     return d, kw
 
 
@@ -113,7 +124,8 @@ def background_cases(draw):
             'box': [draw(st.integers(3, 9)), draw(st.integers(3, 9))],
             'filter_size': draw(st.sampled_from([1, 3, 3])),
             'filter_threshold': draw(st.sampled_from([None, 'below', 'inside',
-                                                      'inside', 'above'])),
+                                                      'inside', 'above',
+                                                      'min_mesh'])),
             'exclude_percentile': draw(st.sampled_from([10.0, 50.0, 90.0])),
             'interp': draw(st.sampled_from(['zoom', 'zoom', 'idw'])),
             'mask_density': draw(st.sampled_from([0.0, 0.0, 0.1, 0.3])),
